@@ -90,6 +90,20 @@ def run(repo, rep):
         rep.check("tens.consumer_list" in it_txt and "tens.ops" in it_txt, "C02-k", "ethosu/vela/graph_optimiser_util.py:_avoid_nhcwb16_for_memory_only",
                   "both the consumers and the producers of the tensor are searched for an Op.Memcpy", f"searches `{it_txt}` only: the output of an NPU memory copy (written as a linear byte copy) may be switched to the "
                   "brick format, and its consumer then addresses linearly written bytes as bricks (never-written bytes for depths that are no multiple of 16)")
+    # a slice read is never folded into an Op.Memcpy consumer: the DMA that implements the copy transfers the whole, un-sliced source
+    go_ = repo.mod("tflite_graph_optimiser")
+    rs_ = go_.func("remove_SplitSliceRead")
+    q_ = [c_ for c_ in ast.walk(rs_) if isinstance(c_, ast.Call) and isinstance(c_.func, ast.Name) and c_.func.id in ("all", "any") and c_.args and isinstance(c_.args[0], ast.GeneratorExp)
+          and "consumer_list" in str(norm(c_.args[0].generators[0].iter))]
+    if len(q_) != 1:
+        raise AnalysisError("remove_SplitSliceRead: quantifier over the consumers not found")
+    from ..exprnorm import conjuncts as _cj2
+
+    cj_ = {str(norm(x)) for x in _cj2(q_[0].args[0].elt)}
+    rep.check("consumer.type != Op.Memcpy" in cj_ or "Op.Memcpy != consumer.type" in cj_ or any("Op.Memcpy" in t and "not in" in t for t in cj_), "C02-k", "ethosu/vela/tflite_graph_optimiser.py:remove_SplitSliceRead",
+              "the slice read is folded into the consumers only if none of them is an NPU memory copy (Op.Memcpy)",
+              f"qualifying condition {sorted(cj_)} admits Op.Memcpy: a STRIDED_SLICE / SPLIT output consumed by a RESHAPE that became a Memcpy is copied with the length of the whole source "
+              "(demonstrated: 1536 bytes into a 512-byte tensor, destination [2048,3584) with a 2560-byte scratch tensor)")
     cw = hn.func("create_weights")
     # the address range of a stand-alone scale stream is built in the scale tensor's region, the others in the weight tensor's
     for i_ in ast.walk(cw):
